@@ -255,6 +255,12 @@ func (m *modelCtx) evalRetry(n *Node, p *PolicySpec) mres {
 		return mres{}
 	}
 	start := m.v.OpStart.T
+	for _, e := range m.v.Events {
+		if e.Flags&FHasExec != 0 {
+			start = e.Start // the execution's own StartTime (later than the call if the caller was descheduled on the way)
+			break
+		}
+	}
 	n.Class = make([]int, len(n.Children))
 	for i := range n.Class {
 		n.Class[i] = -1
@@ -299,8 +305,19 @@ func (m *modelCtx) evalRetry(n *Node, p *PolicySpec) mres {
 		elapsed := ch.Exit.T - start
 		overDur, durAmb := false, false
 		if p.MaxDuration != 0 {
+			// the policy reads the elapsed time when it handles the failure: between the inner call's return and
+			// the next thing this task is seen doing (the two differ only if the task was descheduled in between)
+			later := ch.Exit.T
+			for _, e := range m.v.Events {
+				if e.Task == n.Task && e.Seq > ch.Exit.Seq && (e.Kind != EvListener || e.L != LPolFailure) {
+					later = e.T
+					break
+				}
+			}
+			elapsedLater := later - start
 			overDur = elapsed > p.MaxDuration
-			durAmb = elapsed == p.MaxDuration
+			durAmb = elapsed == p.MaxDuration || (!overDur && elapsedLater >= p.MaxDuration)
+			elapsed = elapsedLater
 		}
 		ab := No
 		if !p.Abort.empty() {
